@@ -140,7 +140,7 @@ func (fx *FuncCtx) callWith(st *State, c *ssa.CallCommon, fv *Val, args []*Val, 
 		keys := ifaceKeys(c)
 		for _, k := range keys {
 			if ct := fx.eng.specs.Contracts["iface:"+k]; ct != nil {
-				names := sigNames(c.Method.Type().(*types.Signature), "self")
+				names := append([]string{"self"}, sigNames(c.Method.Type().(*types.Signature), "")...)
 				return fx.applyContract(st, ct, names, append([]*Val{recv}, args...), resT, "iface:"+k, pos, nil)
 			}
 		}
@@ -245,8 +245,8 @@ func ifaceKeys(c *ssa.CallCommon) []string {
 
 func sigNames(sig *types.Signature, recvName string) []string {
 	var names []string
-	if recvName != "" {
-		if sig.Recv() != nil && sig.Recv().Name() != "" && sig.Recv().Name() != "_" {
+	if recvName != "" && sig.Recv() != nil {
+		if sig.Recv().Name() != "" && sig.Recv().Name() != "_" {
 			names = append(names, sig.Recv().Name())
 		} else {
 			names = append(names, recvName)
@@ -335,7 +335,7 @@ func (fx *FuncCtx) pureCall(st *State, name string, args []*Val, resT types.Type
 func (fx *FuncCtx) wfPure(st *State, term string, t types.Type) string {
 	switch t.Underlying().(type) {
 	case *types.Slice:
-		return fmt.Sprintf("(and (<= 0 (sl_off %s)) (<= 0 (sl_len %s)) (<= (sl_len %s) (sl_cap %s)) (<= 0 (sl_arr %s)))", term, term, term, term, term)
+		return fmt.Sprintf("(and (<= 0 (sl_off %s)) (<= 0 (sl_len %s)) (<= (sl_len %s) (sl_cap %s)) (<= (+ (sl_off %s) (sl_cap %s)) 281474976710655) (<= 0 (sl_arr %s)))", term, term, term, term, term, term, term)
 	case *types.Pointer, *types.Map:
 		return "(<= 0 " + term + ")"
 	}
@@ -412,7 +412,7 @@ func (fx *FuncCtx) builtin(st *State, b *ssa.Builtin, c *ssa.CallCommon, args []
 		row := fx.declare("cprow", "(Array Int "+fx.u.sortOf(elem)+")")
 		// elements outside [off, off+n) keep their values; inside: copied from src
 		q := fx.fresh("k")
-		oldRow := "(select " + h + " (sl_arr " + dst.T + "))"
+		oldRow := "(select " + h + " " + fx.arrOf(dst.T) + ")"
 		fx.emit(fmt.Sprintf("(assert (forall ((%s Int)) (! (=> (or (< %s (sl_off %s)) (>= %s (+ (sl_off %s) %s))) (= (select %s %s) (select %s %s))) :pattern ((select %s %s)))))",
 			q, q, dst.T, q, dst.T, n, row, q, oldRow, q, row, q))
 		if !isString(src.Ty) {
@@ -420,7 +420,7 @@ func (fx *FuncCtx) builtin(st *State, b *ssa.Builtin, c *ssa.CallCommon, args []
 			fx.emit(fmt.Sprintf("(assert (forall ((%s Int)) (! (=> (and (<= 0 %s) (< %s %s)) (= (select %s (+ (sl_off %s) %s)) (select %s (+ (sl_off %s) %s)))) :pattern ((select %s (+ (sl_off %s) %s))))))",
 				q, q, q, n, row, dst.T, q, srcRow, src.T, q, row, dst.T, q))
 		}
-		fx.heapSet(st, name, cs, "(store "+h+" (sl_arr "+dst.T+") "+row+")")
+		fx.heapSet(st, name, cs, "(store "+h+" "+fx.arrOf(dst.T)+" "+row+")")
 		return &Val{T: n, Ty: resT}
 	case "delete":
 		m, k := args[0], args[1]
@@ -431,8 +431,8 @@ func (fx *FuncCtx) builtin(st *State, b *ssa.Builtin, c *ssa.CallCommon, args []
 		ln, ls := "ML$len", "(Array Int Int)"
 		l := fx.heapGet(st, ln, ls)
 		// deleting from a nil map is a no-op
-		fx.heapSet(st, ln, ls, "(ite (= "+m.T+" 0) "+l+" (store "+l+" "+m.T+" (ite "+had+" (- (select "+l+" "+m.T+") 1) (select "+l+" "+m.T+"))))")
-		fx.heapSet(st, hn, hs, "(ite (= "+m.T+" 0) "+h+" (store "+h+" "+m.T+" (store (select "+h+" "+m.T+") "+k.T+" false)))")
+		fx.heapSet(st, ln, ls, "(store "+l+" "+m.T+" (ite "+had+" (- (select "+l+" "+m.T+") 1) (select "+l+" "+m.T+")))")
+		fx.heapSet(st, hn, hs, "(store "+h+" "+m.T+" (store (select "+h+" "+m.T+") "+k.T+" false))")
 		return &Val{Ty: resT}
 	case "print", "println":
 		return &Val{Ty: resT}
@@ -632,10 +632,10 @@ func (fx *FuncCtx) havocLocation(st *State, env *Env, m ast.Expr, text string) {
 			row := fx.declare("modrow", "(Array Int "+fx.u.sortOf(sl.Elem())+")")
 			// only the window [off, off+len) may change
 			q := fx.fresh("k")
-			oldRow := "(select " + h + " (sl_arr " + base.T + "))"
+			oldRow := "(select " + h + " " + fx.arrOf(base.T) + ")"
 			fx.emit(fmt.Sprintf("(assert (forall ((%s Int)) (! (=> (or (< %s (sl_off %s)) (>= %s (+ (sl_off %s) (sl_len %s)))) (= (select %s %s) (select %s %s))) :pattern ((select %s %s)))))",
 				q, q, base.T, q, base.T, base.T, row, q, oldRow, q, row, q))
-			fx.heapSet(st, name, cs, "(store "+h+" (sl_arr "+base.T+") "+row+")")
+			fx.heapSet(st, name, cs, "(store "+h+" "+fx.arrOf(base.T)+" "+row+")")
 			return
 		}
 		if mt, ok := base.Ty.Underlying().(*types.Map); ok {
@@ -664,7 +664,7 @@ func (fx *FuncCtx) havocLocation(st *State, env *Env, m ast.Expr, text string) {
 				if at == "" {
 					at, _ = fx.ptrTerm(st, a)
 				}
-				inner := g.Sort[len("(Array Int ") : len(g.Sort)-1]
+				_, inner := arraySorts(g.Sort)
 				fx.heapSet(st, "G$"+g.Name, g.Sort, "(store "+h+" "+at+" "+fx.declare("modg", inner)+")")
 				return
 			}
@@ -721,6 +721,58 @@ func (fx *FuncCtx) atReturn(st *State, ins *ssa.Return, vals []*Val) {
 		}
 	}
 	fx.frameCheck(st, k, ins.Pos())
+	fx.refineCheck(st, k, ins.Pos(), vals)
+}
+
+// refineCheck: `refines Iface.Method l1 l2 ...` — the listed ensures clauses of
+// the interface contract must hold at every return of the implementation.
+func (fx *FuncCtx) refineCheck(st *State, k int, pos token.Pos, vals []*Val) {
+	ct := fx.ct
+	if len(ct.Refines) == 0 {
+		return
+	}
+	ik := ct.Refines[0]
+	ict := fx.eng.specs.Contracts["iface:"+ik]
+	if ict == nil {
+		fx.clauseErrs = append(fx.clauseErrs, "refines: no interface contract "+ik)
+		return
+	}
+	want := map[string]bool{}
+	for _, l := range ct.Refines[1:] {
+		want[l] = true
+	}
+	vars := map[string]*Val{}
+	// positional mapping: receiver -> self, parameters by position to the interface method's names
+	var inames []string
+	if m := fx.eng.ifaceMethod(ik); m != nil {
+		inames = append([]string{"self"}, sigNames(m.Type().(*types.Signature), "")...)
+	}
+	for i, p := range fx.fn.Params {
+		v := fx.params[p.Name()]
+		if i == 0 {
+			vars["self"] = fx.makeIface(st, v, types.NewInterfaceType(nil, nil))
+			continue
+		}
+		if i < len(inames) {
+			vars[inames[i]] = v
+		}
+		vars[p.Name()] = v
+	}
+	for i, r := range vals {
+		vars[fmt.Sprintf("ret%d", i)] = r
+	}
+	env := &Env{fx: fx, st: st, old: fx.entryAfterReq, vars: vars, pkg: fx.eng.pkgOfContract(ict, nil), errs: &fx.clauseErrs}
+	for _, c := range ict.Ensures {
+		if len(want) > 0 && !want[c.Label] {
+			continue
+		}
+		t := fx.evalClause(c, env)
+		ob := fx.oblige(st, "refine", fmt.Sprintf("refine:%s.%s@ret%d", ik, c.Label, k), t, pos, false)
+		if ob != nil {
+			ob.Expr = "refinement of " + ik + ": " + c.Text
+			ob.Tags = ct.Props
+		}
+	}
 }
 
 // frameCheck generates frame obligations for an explicit modifies clause.
@@ -820,12 +872,12 @@ func (fx *FuncCtx) modRef(env *Env, m ast.Expr) string {
 	case *ast.IndexExpr:
 		base := env.eval(x.X)
 		if _, ok := base.Ty.Underlying().(*types.Slice); ok {
-			return "(sl_arr " + base.T + ")"
+			return fx.arrOf(base.T)
 		}
 		return base.T
 	case *ast.SliceExpr:
 		base := env.eval(x.X)
-		return "(sl_arr " + base.T + ")"
+		return fx.arrOf(base.T)
 	case *ast.CallExpr:
 		if len(x.Args) > 0 {
 			a := env.eval(x.Args[0])
@@ -949,4 +1001,26 @@ func (fx *FuncCtx) inlineSpec(fn *ssa.Function, args []*Val, heapFrom *State) *V
 func isUntyped(t types.Type) bool {
 	b, ok := t.(*types.Basic)
 	return ok && b.Info()&types.IsUntyped != 0
+}
+
+// arraySorts splits "(Array K V)" into K and V.
+func arraySorts(s string) (string, string) {
+	if !strings.HasPrefix(s, "(Array ") {
+		return "", s
+	}
+	inner := s[len("(Array ") : len(s)-1]
+	d := 0
+	for i := 0; i < len(inner); i++ {
+		switch inner[i] {
+		case '(':
+			d++
+		case ')':
+			d--
+		case ' ':
+			if d == 0 {
+				return inner[:i], strings.TrimSpace(inner[i+1:])
+			}
+		}
+	}
+	return inner, ""
 }
